@@ -206,6 +206,12 @@ def replay_file(path):
     job = {"kind": rec["kind"], "seed": rec.get("seed"), "run": rec.get("run"),
            "env": rec.get("env"), "params": rec["params"], "steps": rec["steps"],
            "ref": rec.get("ref"), "timeout": 900, "want_events": True}
+    if rec["expected"]["signature"].get("class") == "liveness":
+        job["timeout"] = 600
+        res = host.run_jobs([job])[0]
+        if res.get("harness_timeout"):
+            res["violations"] = [{"class": "liveness", "detail": "the run does not terminate"}]
+        return has_sig(res, rec["expected"]["signature"]), res, rec
     res = host.oneshot(job)
     if res.get("harness_error"):
         return None, res, rec
@@ -218,6 +224,8 @@ def report_violation(prop, job, result, violation, minimise_budget=90):
     sig = sig_of(violation)
     original_len = len(result["steps"])
     try:
+        if sig.get("class") == "liveness":
+            raise RuntimeError("liveness violations are not minimised")
         mjob, mres = minimise(job, result, sig, budget_s=minimise_budget)
     except Exception as exc:  # noqa: BLE001
         log(f"minimiser failed ({exc}); reporting the unminimised schedule")
@@ -239,6 +247,34 @@ def report_violation(prop, job, result, violation, minimise_budget=90):
         f"run={job.get('run')} env={json.dumps(mjob.get('env'))}")
     log("  " + str(mv.get("detail"))[:1500])
     return path
+
+
+def triage_timeouts(jobs, results, factor=3):
+    """H5 (bounded recovery / liveness): a run that exceeded its time limit is re-executed
+    alone with a longer limit.  If it then completes, the first attempt was a slow machine;
+    if it still does not terminate it becomes a ``liveness`` violation whose replay is the
+    run itself."""
+    idx = [i for i, r in enumerate(results) if r and r.get("harness_timeout")]
+    if not idx:
+        return 0
+    retry = [dict(jobs[i], timeout=float(jobs[i].get("timeout", 300)) * factor) for i in idx]
+    res = host.run_jobs(retry, group_size=1)
+    n = 0
+    for i, j, r in zip(idx, retry, res):
+        if r.get("harness_timeout"):
+            n += 1
+            results[i] = {
+                "kind": j["kind"], "seed": j.get("seed"), "run": j.get("run"),
+                "params": j.get("params"), "steps": j.get("steps"), "n_steps":
+                len(j.get("steps") or []), "digest": None, "stats": None,
+                "violations": [{"class": "liveness", "property": None, "step": None,
+                                "detail": f"the run did not terminate within "
+                                          f"{j['timeout']:.0f}s (first limit "
+                                          f"{jobs[i].get('timeout')}s); requests after the "
+                                          f"last fault must complete (H5)"}]}
+        else:
+            results[i] = r
+    return n
 
 
 def harness_failures(results):
